@@ -102,7 +102,7 @@ impl<A: BoundedOgreAllocator<Tracked> + Send + Sync + 'static> ItemHandle for Og
     fn val(&self) -> u64 { (**self).val }
     fn intact(&self) -> bool { (**self).intact() }
     fn addr(&self) -> usize { &**self as *const Tracked as usize }
-    fn into_shared(self: Box<Self>) -> Result<Box<dyn ItemHandle>, Box<dyn ItemHandle>> { Ok(Box::new((*self).into_ogre_arc())) }
+    fn into_shared(self: Box<Self>) -> Result<Box<dyn ItemHandle>, Box<dyn ItemHandle>> { if ((**self).val >> 32) & 1 == 0 { Ok(Box::new((*self).into_ogre_arc())) } else { Ok(Box::new(OgreArc::from(*self))) } }
 }
 impl<A: BoundedOgreAllocator<Tracked> + Send + Sync + 'static> ItemHandle for OgreArc<Tracked, A> {
     fn val(&self) -> u64 { (**self).val }
